@@ -49,7 +49,7 @@ func (m *Mutex) Lock() {
 		}
 		return 1
 	}, Apply: func(int) { m.locked = true; vsched.TouchR(m.obj, vsched.KLock) }}
-	vsched.DoPoint(p.SetPC(vsched.CallerPC(1)))
+	vsched.DoPoint(p.SetPC(vsched.CallerPC(2)))
 }
 
 func (m *Mutex) TryLock() bool {
@@ -68,7 +68,7 @@ func (m *Mutex) TryLock() bool {
 		}
 		vsched.TouchW(m.obj, vsched.KLock)
 	}}
-	vsched.DoPoint(p.SetPC(vsched.CallerPC(1)))
+	vsched.DoPoint(p.SetPC(vsched.CallerPC(2)))
 	return ok
 }
 
@@ -131,7 +131,7 @@ func (m *RWMutex) Lock() {
 		}
 		return 1
 	}, Apply: func(int) { m.writer = true; vsched.TouchR(m.obj, vsched.KLock) }}
-	vsched.DoPoint(p.SetPC(vsched.CallerPC(1)))
+	vsched.DoPoint(p.SetPC(vsched.CallerPC(2)))
 }
 
 func (m *RWMutex) Unlock() {
@@ -169,7 +169,7 @@ func (m *RWMutex) RLock() {
 		}
 		return 1
 	}, Apply: func(int) { m.readers++; vsched.TouchR(m.obj, vsched.KRLock) }}
-	vsched.DoPoint(p.SetPC(vsched.CallerPC(1)))
+	vsched.DoPoint(p.SetPC(vsched.CallerPC(2)))
 }
 
 func (m *RWMutex) RUnlock() {
@@ -247,7 +247,7 @@ func (w *WaitGroup) Wait() {
 		}
 		return 0
 	}, Apply: func(int) { vsched.TouchR(w.obj, vsched.KWGWait) }}
-	vsched.DoPoint(p.SetPC(vsched.CallerPC(1)))
+	vsched.DoPoint(p.SetPC(vsched.CallerPC(2)))
 }
 
 // Once is a drop-in for sync.Once.
@@ -318,7 +318,7 @@ func (c *Cond) Wait() {
 		}
 		vsched.TouchR(c.obj, vsched.KCond)
 	}}
-	vsched.DoPoint(p.SetPC(vsched.CallerPC(1)))
+	vsched.DoPoint(p.SetPC(vsched.CallerPC(2)))
 	c.L.Lock()
 }
 
